@@ -28,24 +28,25 @@ package concur
 import (
 	"bufio"
 	"bytes"
-	"io"
-	"os/exec"
 	"errors"
 	"fmt"
+	"io"
 	"math/rand"
 	"os"
+	"os/exec"
 	"runtime"
 	"sort"
 	"strconv"
 	"strings"
 	"time"
 
-	"github.com/ipfs/go-graphsync"
 	"github.com/ipfs/go-cid"
+	"github.com/ipfs/go-graphsync"
 	"github.com/ipfs/go-graphsync/cidset"
 	"github.com/ipfs/go-graphsync/dedupkey"
 	"github.com/ipfs/go-graphsync/donotsendfirstblocks"
 
+	"verifharness/quiesce"
 	"verifharness/reg"
 	tn "verifharness/twonode"
 )
@@ -74,7 +75,7 @@ type Params struct {
 	Ign    [][]int  // do-not-send-cids per request
 	Skip   []int    // user do-not-send-first-blocks per request
 	Cancel []int    // >0: the requestor's block hook terminates request i with an error at this block
-	Peers  []int // issuing requestor of each request: 0 = node A, 1 = node B (a second requestor peer)
+	Peers  []int    // issuing requestor of each request: 0 = node A, 1 = node B (a second requestor peer)
 }
 
 func bits(s string, n int) ([]bool, bool) {
@@ -254,12 +255,12 @@ func parseHeader(h string) (Params, bool) {
 // ---------------------------------------------------------------- runs
 
 type runOut struct {
-	res   []tn.Result
-	store []int // requestor A's store afterwards
-	storeB []int // requestor B's store afterwards
-	hang  string
-	sim   *tn.Sim
-	steps int
+	res        []tn.Result
+	store      []int // requestor A's store afterwards
+	storeB     []int // requestor B's store afterwards
+	hang       string
+	sim        *tn.Sim
+	steps      int
 	startStore map[int][]int // requestor store (of the issuing node) at the moment request i was started
 }
 
@@ -497,12 +498,24 @@ func runSetAt(w *tn.World, qs []*tn.Query, which []int, locA, locB, rem []int, p
 // hook of B for X, nothing on the wire: cross-request deduplication), and after that a load of X on
 // the requestor was answered from the local store — which did not hold X — before the first store
 // write of X was committed (A had not stored its copy yet).  Returns a description or "".
-func sharedRace(s *tn.Sim, nodeOf func(req int) int) string {
+// raceHit: block X went on the wire under request A only, request B was told present-without-bytes, and
+// a load of X at traversal path Path was answered from the local store, which did not hold X yet.  The
+// requestor's store reads do not carry a request ID (the request manager builds its own contexts), so
+// the read is attributed to B through the path: B must report exactly `missing:X:Path` (raceExplains);
+// another request's ordinary first miss of X fetches the block and reports nothing.
+type raceHit struct {
+	X, A, B int
+	Path    string
+	Desc    string
+}
+
+func sharedRace(s *tn.Sim, nodeOf func(req int) int) []raceHit {
+	var hits []raceHit
 	var log []tn.Event
 	s.Locked(func() { log = append(log, s.Log...) })
 	type hk struct{ req, seq int }
-	wire := map[int][]hk{}   // block -> (request, seq) of hooks with bytes on the wire
-	nowire := map[int][]hk{} // block -> (request, seq) of hooks without
+	wire := map[int][]hk{}         // block -> (request, seq) of hooks with bytes on the wire
+	nowire := map[int][]hk{}       // block -> (request, seq) of hooks without
 	firstWrite := map[[2]int]int{} // (node, block) -> seq of the first committed write
 	for _, e := range log {
 		switch e.Kind {
@@ -570,8 +583,39 @@ func sharedRace(s *tn.Sim, nodeOf func(req int) int) string {
 					live = false // A had already ended on the responder: withholding is not the known de-duplication
 				}
 				if a.req != b.req && a.seq < b.seq && live && nodeOf(a.req) == e.Side && nodeOf(b.req) == e.Side {
-					return fmt.Sprintf("block %d went on the wire under r%d (seq %d), r%d was then told present-without-bytes (seq %d) and a load of it hit the local store (seq %d) before r%d's copy was stored", x, a.req, a.seq, b.req, b.seq, e.Seq, a.req)
+					hits = append(hits, raceHit{X: x, A: a.req, B: b.req, Path: e.Note, Desc: fmt.Sprintf("block %d went on the wire under r%d (seq %d), r%d was then told present-without-bytes (seq %d) and a load of it at path %q hit the local store (seq %d) before r%d's copy was stored", x, a.req, a.seq, b.req, b.seq, e.Note, e.Seq, a.req)})
 				}
+			}
+		}
+	}
+	return hits
+}
+
+// raceExplains: request i's deviation from its solo run is the documented effect of a race on block X:
+// it reports X missing (its subtree is skipped; a RemoteIncorrectResponseError may follow because the
+// responder did follow the link), it delivers a sub-sequence of its solo nodes and nothing else.
+func raceExplains(hits []raceHit, i int, solo, conc tn.Result) string {
+	j := 0
+	for _, n := range conc.Nodes {
+		for j < len(solo.Nodes) && solo.Nodes[j] != n {
+			j++
+		}
+		if j == len(solo.Nodes) {
+			return ""
+		}
+		j++
+	}
+	have := map[string]bool{}
+	for _, e := range solo.Missing {
+		have[e] = true
+	}
+	for _, h := range hits {
+		if h.B != i {
+			continue
+		}
+		for _, e := range conc.Missing {
+			if !have[e] && e == fmt.Sprintf("missing:%d:%s", h.X, h.Path) {
+				return h.Desc
 			}
 		}
 	}
@@ -765,10 +809,15 @@ func Child() {
 			for _, c := range cases {
 				o := reg.NewOut(w)
 				o.BeginCase(c)
-				wd := time.AfterFunc(180*time.Second, func() {
-					fmt.Fprintf(os.Stdout, "\n#oracle case=%s FAIL class=hang watchdog: the case did not finish within 180 s\n", c.ID)
-					os.Exit(3)
-				})
+				wd := quiesce.NewWatch(5*time.Minute, 30*time.Second, time.Hour,
+					func(d string) {
+						fmt.Fprintf(os.Stdout, "\n#oracle case=%s FAIL class=hang watchdog: %s\n", c.ID, d)
+						os.Exit(3)
+					},
+					func(d string) {
+						fmt.Fprintf(os.Stdout, "\n#oracle case=%s FAIL class=harness-timeout watchdog: %s\n", c.ID, d)
+						os.Exit(3)
+					})
 				runCase(c, o)
 				wd.Stop()
 				o.Finish()
@@ -930,24 +979,17 @@ func judgeCase(out *reg.Out, w *tn.World, qs []*tn.Query, loc, rem []int, p Para
 		}
 		return tn.NodeA
 	})
-	if race != "" {
+	if len(race) > 0 {
 		out.Cov("shared-race")
 		out.Cov("shared-race." + p.Dedup)
 	}
-	known := ""
+	// C02's input classes (a request's own local prefix is not held by the responder): the SOLO run of
+	// such a request is itself the subject of C02's finding, no verdict about concurrency
+	c02 := ""
 	for _, q := range qs {
-		if c := c02Class(q, locS, remS); c != "" && known == "" {
-			known = c
+		if c := c02Class(q, locS, remS); c != "" && c02 == "" {
+			c02 = c
 		}
-	}
-	cls := func(c string) string {
-		if known != "" {
-			return known
-		}
-		if race != "" {
-			return "shared-block-not-yet-stored"
-		}
-		return c
 	}
 	summary := func() {
 		var parts []string
@@ -956,12 +998,14 @@ func judgeCase(out *reg.Out, w *tn.World, qs []*tn.Query, loc, rem []int, p Para
 		}
 		out.Line("%s store=%s solo-store=%s steps=%d", strings.Join(parts, " "), tn.FmtInts(conc.store), tn.FmtInts(soloStore), conc.steps)
 	}
+	// ---- the solo runs: a failure here is never a known finding of C20 (impossible on the unchanged
+	// tree outside C02's input classes)
 	for i, so := range solo {
 		if p.Cancel[i] > 0 {
 			continue
 		}
 		if so.hang != "" {
-			out.Fail(cls("baseline-hang"), "request %d alone: %s", i, so.hang)
+			out.Fail("harness-baseline-hang", "request %d alone: %s", i, so.hang)
 			summary()
 			return
 		}
@@ -971,13 +1015,20 @@ func judgeCase(out *reg.Out, w *tn.World, qs []*tn.Query, loc, rem []int, p Para
 			continue
 		}
 		if len(so.res[0].Hard) > 0 && qs[i].RefTrav(locS, remS)[0].Avail {
-			out.Fail(cls("baseline-rejected"), "request %d alone failed verification: %s", i, strings.Join(so.res[0].Hard, " "))
+			if c02 != "" {
+				out.Cov("verdict.withheld.c02-input-class")
+				summary()
+				return
+			}
+			out.Fail("harness-baseline-rejected", "request %d alone failed verification: %s", i, strings.Join(so.res[0].Hard, " "))
 			summary()
 			return
 		}
 	}
 	if conc.hang != "" {
-		out.Fail(cls("hang"), "concurrent run: %s", conc.hang)
+		// a hang is never a known finding: `shared-block-not-yet-stored` documents a request that ENDS
+		// with a missing-block error
+		out.Fail("hang", "concurrent run: %s", conc.hang)
 		summary()
 		return
 	}
@@ -1005,7 +1056,15 @@ func judgeCase(out *reg.Out, w *tn.World, qs []*tn.Query, loc, rem []int, p Para
 			a.Missing, b.Missing, a.Hard, b.Hard = nil, nil, nil, nil
 		}
 		if d := a.Diff(b); d != "" {
-			out.Fail(cls("result-differs"), "request %d (root %d, %s) alone vs concurrently: %s%s", i, qs[i].Root, qs[i].SelName, d, ifs(race != "", " ["+race+"]"))
+			// known only for the request B and the block X of a race, and only if B's deviation is X
+			// reported missing (subtree skipped, possibly followed by the mismatch error)
+			c, why := "result-differs", ""
+			if c02 != "" {
+				c = c02
+			} else if w := raceExplains(race, i, a, b); w != "" {
+				c, why = "shared-block-not-yet-stored", " ["+w+"]"
+			}
+			out.Fail(c, "request %d (root %d, %s) alone vs concurrently: %s%s", i, qs[i].Root, qs[i].SelName, d, why)
 			summary()
 			return
 		}
@@ -1015,9 +1074,9 @@ func judgeCase(out *reg.Out, w *tn.World, qs []*tn.Query, loc, rem []int, p Para
 		return
 	}
 	if tn.FmtInts(conc.store) != tn.FmtInts(soloStore) {
-		out.Fail(cls("store-differs"), "requestor store after the concurrent run [%s], union of the solo runs' stores [%s]", tn.FmtInts(conc.store), tn.FmtInts(soloStore))
+		out.Fail("store-differs", "requestor store after the concurrent run [%s], union of the solo runs' stores [%s]", tn.FmtInts(conc.store), tn.FmtInts(soloStore))
 	} else if anyB && tn.FmtInts(conc.storeB) != tn.FmtInts(soloStoreB) {
-		out.Fail(cls("store-differs"), "second requestor's store after the concurrent run [%s], union of its solo runs' stores [%s]", tn.FmtInts(conc.storeB), tn.FmtInts(soloStoreB))
+		out.Fail("store-differs", "second requestor's store after the concurrent run [%s], union of its solo runs' stores [%s]", tn.FmtInts(conc.storeB), tn.FmtInts(soloStoreB))
 	}
 	summary()
 }
